@@ -14,7 +14,7 @@ CLAIMED = {
  'C09': dict(
    technique='runtime monitoring: differential twins (one frame per buffer vs arbitrary chunking) + cursor-accounting monitor + exhaustive two-cut enumeration of short streams',
    level='exploration',
-   text='250 k (quick) / 10 M (thorough) twin histories: identical operations, but twin A hands recv() exactly one whole frame per buffer (boundaries from an independent reference framer) and twin B an arbitrary partition (single bytes, frame-straddling pieces, several concatenated frames incl. invalid, mutated and over-long-length ones); operation-level normalised event traces must be equal and no call may cross a frame end. All pairs of 13-15 short frames x every pair of cut points are enumerated exhaustively for four role/version/id-width combinations; PacketBuilder::feed reassembly is compared byte for byte on streams with bodies of 0,1,127,128,16383,16384 bytes.',
+   text='250 k (quick) / 10 M (thorough) twin histories: identical operations, but twin A hands recv() exactly one whole frame per buffer (boundaries from an independent reference framer) and twin B an arbitrary partition (single bytes, frame-straddling pieces, empty buffers in between, several concatenated frames incl. invalid, mutated and over-long-length ones); operation-level normalised event traces must be equal and no call may cross a frame end. All pairs of 13-15 short frames x every pair of cut points are enumerated exhaustively for four role/version/id-width combinations; PacketBuilder::feed reassembly is compared byte for byte on streams with bodies of 0,1,127,128,16383,16384 bytes.',
    note='Trusted: the reference framer (MQTT §2.2) and the driver twins making identical non-chunking choices (separate PRNG streams).',
    design='DESIGN.md §4 C09'),
  'C10': dict(
@@ -44,7 +44,7 @@ CLAIMED = {
  'C05': dict(
    technique='runtime monitoring: online reference-model monitor over call records of seeded random histories (generic driver, hostile peer, small alphabets), every call under catch_unwind in the overflow-checks build (+ second build with assertions/overflow checks off)',
    level='exploration',
-   text='700 k (quick) / 25 M (thorough) histories of contract-respecting local calls interleaved with arbitrary peer traffic (valid packets of every kind with boundary values, mutated frames, garbage, tiny Maximum Packet Size, Receive Maximum 1, Topic Alias Maximum 0) over all roles/versions/id widths/options; rules: no panic in any call, recv always progresses, every complete frame is delivered, answered as a duplicate or reported, a fresh handshake is accepted after every close (the driver reconnects after every close). Both build profiles.',
+   text='700 k (quick) / 25 M (thorough) histories of contract-respecting local calls interleaved with arbitrary peer traffic (valid packets of every kind with boundary values, mutated frames, garbage, tiny Maximum Packet Size, Receive Maximum 1, Topic Alias Maximum 0) over all roles/versions/id widths/options; rules: no panic in any call, recv always progresses, every complete frame is delivered, answered as a duplicate or reported, a fresh handshake is accepted after every close (the driver reconnects after every close). One history in four lets the application break its contract (release of a busy id, another packet on a busy id); afterwards only the unconditional rules are judged. Directed extreme values: frames with Remaining Length 268435455 / next to it (alias-only PUBLISH with a bound alias), 65 539 stored exchanges with u32 ids resumed and acknowledged one by one. Both build profiles.',
    note='Trusted: the reference model of DESIGN Appendix F (written from the property statements, updated only from calls, returned events and public probes) and the application contract of DESIGN §3.3. The hook digest is only used to read the in-use id set faster; the same clause is re-checked black-box by register()/release() probing on a sample of calls.',
    design='DESIGN.md §4 + Appendix F'),
  'C06': dict(
@@ -98,7 +98,7 @@ CLAIMED = {
  'C02': dict(
    technique='runtime monitoring: round-trip identities evaluated on generated packets built through the public builders (boundary-biased generator, 4 SSO feature builds in thorough), every call under catch_unwind',
    level='exploration',
-   text='About 1.3 M (quick) / 60 M (thorough) abstract packets over all 29 kinds x u16/u32 ids x optional fields x property sets x lengths around 127/128, 16383/16384, 65535, 2097151/2 and the SSO thresholds are built through the public builders; for each: size()==len, vectored==contiguous serialisation, Remaining Length on the wire, parse(own bytes)==packet with consumed==body, store-packet wrapper, and the v5 PUBLISH helper methods that recompute cached lengths. Directed packets hit every VBI boundary exactly. Quick also runs the sso-lv10 build; thorough all four SSO builds.',
+   text='About 1.3 M (quick) / 60 M (thorough) abstract packets over all 29 kinds x u16/u32 ids x optional fields x property sets x lengths around 127/128, 16383/16384, 65535, 2097151/2 and the SSO thresholds are built through the public builders - every other one through a permuted sequence of builder / setter calls with overwritten decoy values (SubOpts setters, CONNECT and PUBLISH builders: a packet is a function of its fields, not of the calls that set them); for each: size()==len, vectored==contiguous serialisation, Remaining Length on the wire, parse(own bytes)==packet with consumed==body, store-packet wrapper, and the v5 PUBLISH helper methods that recompute cached lengths. Directed packets hit every VBI boundary exactly. Quick also runs the sso-lv10 build; thorough all four SSO builds.',
    note='Trusted: my generator only produces what the builders accept (builder rejections are counted in the evidence); Eq of library packets.',
    design='DESIGN.md §4 C02'),
  'C03': dict(
@@ -116,7 +116,7 @@ CLAIMED = {
  'C18': dict(
    technique='runtime monitoring over an exhaustively enumerated finite table: reference acceptance table (MQTT 5.0 Table 2-4) vs builder path and parser path',
    level='exploration',
-   text='All 1484 cells (27 property ids x 14 locations incl. will x count {1,2} x value classes incl. every forbidden value) are placed into a minimal valid carrier packet and run through the public builders and, reference-encoded, through the parsers; acceptance must equal the specification table on both paths. Exhaustive over the table. Every cell is placed in two carriers: the minimal packet and one that differs in everything around the property list (failure reason codes, QoS 2/RETAIN/DUP, kept session with credentials, several entries). In addition every ordered pair of distinct property ids x 14 locations in the list shapes [A,B] [B,A] [A,B,B] [B,A,B] [B,B,A] (~5.8 k cells: the verdict on a property must not depend on its neighbour) and 20 k (quick) / 2 M (thorough) seeded random property lists of up to 6 entries.',
+   text='All 1484 cells (27 property ids x 14 locations incl. will x count {1,2} x value classes incl. every forbidden value) are placed into a minimal valid carrier packet and run through the public builders and, reference-encoded, through the parsers; acceptance must equal the specification table on both paths. Exhaustive over the table. The authentication pair (method, data) is placed in both orders with User Properties in between (T6). Every cell is placed in two carriers: the minimal packet and one that differs in everything around the property list (failure reason codes, QoS 2/RETAIN/DUP, kept session with credentials, several entries). In addition every ordered pair of distinct property ids x 14 locations in the list shapes [A,B] [B,A] [A,B,B] [B,A,B] [B,B,A] (~5.8 k cells: the verdict on a property must not depend on its neighbour) and 20 k (quick) / 2 M (thorough) seeded random property lists of up to 6 entries.',
    note='Trusted: my transcription of Table 2-4 (DESIGN Appendix C). Builder cells whose value no public constructor can express are counted as inexpressible.',
    design='DESIGN.md §4 C18'),
  'C20': dict(
